@@ -17,6 +17,7 @@
 (*              (DryRun(true) -> maybe patch True -> Update(true))         *)
 (*   Failure  = liveness.updateNodePoolRegistrationHealth                  *)
 (*   Reset    = registrationhealth: SetUnknown + SetStatus(Unknown)        *)
+(*   ResetNC  = the same, triggered by a NodeClass generation change       *)
 (*   Restart  = process restart: in-memory buffer lost, condition kept     *)
 (*   Hydrate  = registrationhealth on an empty buffer: True -> <<T>>,      *)
 (*              False -> <<F,F>>                                           *)
@@ -74,6 +75,11 @@ Reset ==
     /\ cond' = "Unknown" /\ w' = <<>> /\ buf' = <<>> /\ head' = 0
     /\ last' = "Reset" /\ h' = Append(h, "Reset")
 
+\* the NodeClass (not the NodePool) changed: same reset, reached through a different test in the controller
+ResetNC ==
+    /\ cond' = "Unknown" /\ w' = <<>> /\ buf' = <<>> /\ head' = 0
+    /\ last' = "ResetNC" /\ h' = Append(h, "ResetNC")
+
 Restart ==
     /\ w' = <<>> /\ buf' = <<>> /\ head' = 0 /\ UNCHANGED cond
     /\ last' = "Restart" /\ h' = Append(h, "Restart")
@@ -83,10 +89,10 @@ Hydrate ==
     /\ w' = Hydrated(cond) /\ buf' = Hydrated(cond) /\ head' = 0 /\ UNCHANGED cond
     /\ last' = "Hydrate" /\ h' = Append(h, IF cond = "True" THEN "HydrateT" ELSE "HydrateF")
 
-Next == Len(h) < MaxLen /\ (Success \/ Failure \/ Reset \/ Restart \/ Hydrate)
+Next == Len(h) < MaxLen /\ (Success \/ Failure \/ Reset \/ ResetNC \/ Restart \/ Hydrate)
 Spec == Init /\ [][Next]_vars
 \* simulation variant: resets/restarts only every 7th step, so random walks wrap the window often
-NextDeep == Len(h) < MaxLen /\ (Success \/ Failure \/ (Len(h) % 7 = 6 /\ (Reset \/ Restart \/ Hydrate)))
+NextDeep == Len(h) < MaxLen /\ (Success \/ Failure \/ (Len(h) % 7 = 6 /\ (Reset \/ ResetNC \/ Restart \/ Hydrate)))
 SpecDeep == Init /\ [][NextDeep]_vars
 
 \* ---------------------------------------------------------------- properties
